@@ -259,6 +259,16 @@ pub fn run(args: &Args) -> Report {
             }
         }
 
+        // B2. each JSON whitespace byte at each token gap inside a nested unknown member value
+        for (n, val) in nested_gap_texts().into_iter().enumerate() {
+            for pos in [0usize, 4, 7] {
+                let mut r = EvRender::plain();
+                r.unknown = vec![Unknown { pos, key_text: b"\"meta\"".to_vec(), val_text: val.clone() }];
+                in_domain_case(&mut rep, &mut rng, if n % 2 == 0 { &e1 } else { &e2 }, &r, "whitespace-in-unknown-member", pos == 4);
+                rep.count("whitespace_gap_cases_inside_unknown_members");
+            }
+        }
+
         // C. every ASCII code point and a stratified sample of scalars, in every legal spelling
         let mut scalars: Vec<u32> = (0..128).collect();
         scalars.extend_from_slice(BOUNDARY_SCALARS);
